@@ -1,6 +1,7 @@
 import SimilarVerif.Lemmas.Udiff
 import SimilarVerif.Lemmas.Compact
 import SimilarVerif.Lemmas.UdiffParse
+import SimilarVerif.Lemmas.UdiffLossy
 /-!
 # C05 — rendered unified diffs are well-formed and apply exactly
 
@@ -107,5 +108,63 @@ theorem lines_are_lines : type_of% @UdiffParseP.isLine_tokens := @UdiffParseP.is
 
 /-- `@@` header round trip: all three range forms -/
 theorem hunk_header_roundtrip : type_of% @UdiffParseP.parseHunkHeader_render := @UdiffParseP.parseHunkHeader_render
+
+end SimilarVerif.C05
+
+/-! ## `Display` output = lossy decoding of the `to_writer` output -/
+namespace SimilarVerif.C05
+open SimilarVerif Spec UdiffP
+
+/-- **(a)** an incomplete sequence at the end of `a` is cut by an ASCII byte exactly as by the end of
+input: `lossy (a ++ b) = lossy a ++ lossy b` whenever `b` is empty or its first byte is `< 0x80` -/
+theorem lossy_append_ascii : type_of% @LossyP.lossy_append_ascii := @LossyP.lossy_append_ascii
+
+/-- an ASCII byte is decoded on its own, whatever follows -/
+theorem lossy_cons_ascii : type_of% @LossyP.lossy_cons_ascii := @LossyP.lossy_cons_ascii
+
+/-- **(b)** `lossy` is the identity on byte strings that are all `< 0x80` -/
+theorem lossy_ascii : type_of% @LossyP.lossy_ascii := @LossyP.lossy_ascii
+
+/-- **(c)** the `Display` output of a unified diff is the lossy decoding of its `to_writer` output (as
+results: same error, decoded bytes on success) — for ALL ops, token arrays, radii, newline modes, with and
+without the missing-newline hint; the header names are valid UTF-8 (`String`s in Rust) -/
+theorem display_is_lossy_writer : type_of% @LossyP.display_is_lossy_writer := @LossyP.display_is_lossy_writer
+
+/-- **(d)** if every token is valid UTF-8 (`lossy t = t`) the two outputs are identical -/
+theorem display_eq_writer_on_utf8 : type_of% @LossyP.display_eq_writer_on_utf8 := @LossyP.display_eq_writer_on_utf8
+
+#print axioms lossy_append_ascii
+#print axioms lossy_cons_ascii
+#print axioms lossy_ascii
+#print axioms display_is_lossy_writer
+#print axioms display_eq_writer_on_utf8
+
+/-- non-vacuity of (a): `b` starting with an ASCII byte after a truncated two-byte sequence -/
+example : (∀ x, ([10, 0xC3] : Bytes).head? = some x → x < 0x80) ∧
+    lossy ([0xC3] ++ [10, 0xC3]) = [239, 191, 189, 10, 239, 191, 189] := by
+  refine ⟨?_, by rfl⟩
+  intro x hx; simp at hx; subst hx; decide
+
+/-- (a) needs its hypothesis: a continuation byte completes the sequence -/
+example : lossy ([0xC3] ++ [0xA9]) = [0xC3, 0xA9] ∧ lossy [0xC3] ++ lossy [0xA9] = [239, 191, 189, 239, 191, 189] := by
+  constructor <;> rfl
+
+/-- non-vacuity of (b) -/
+example : ∀ x ∈ ascii "@@ -1 +1 @@", x < 0x80 := by decide
+
+/-- non-vacuity of (c): ASCII header names satisfy the hypothesis … -/
+example : ∀ a b, some (ascii "a", ascii "b") = some (a, b) → lossy a = a ∧ lossy b = b := by
+  intro a b h; cases h; decide
+
+/-- … and an instance with truncated sequences in both lines (newline-terminated mode, no hint): the
+writer prints the raw bytes, `Display` one U+FFFD for each -/
+example : renderUnified 3 none [.replace 0 1 0 1] #[[0xC3]] #[[0xE2, 0x82]] true false false =
+    .ok [64, 64, 32, 45, 49, 32, 43, 49, 32, 64, 64, 10, 45, 195, 10, 43, 226, 130, 10] := by rfl
+example : renderUnified 3 none [.replace 0 1 0 1] #[[0xC3]] #[[0xE2, 0x82]] true false true =
+    .ok [64, 64, 32, 45, 49, 32, 43, 49, 32, 64, 64, 10, 45, 239, 191, 189, 10, 43, 239, 191, 189, 10] := by rfl
+
+/-- non-vacuity of (d): tokens that are valid UTF-8 (`a\n`, `é\n`) -/
+example : ∀ t, t ∈ (#[[97, 10]] : Array Bytes) ∨ t ∈ (#[[0xC3, 0xA9, 10]] : Array Bytes) → lossy t = t := by
+  intro t h; simp at h; rcases h with rfl | rfl <;> rfl
 
 end SimilarVerif.C05
